@@ -24,6 +24,8 @@ ASSUMPTIONS = [
     "only for values whose representation is determined",
     "examined boundary B3 (OneOrMany is not closed): OneOrMany::from_iter(empty) = Many(vec![]) (len 0, used by InstrumentFilter::exchanges / instruments / underlyings and AssetFilter::exchanges "
     "on an empty iterator) although From<Vec> panics on the empty vector; One(x).extend(empty) = Many(vec![x]) != One(x). The spec treats these as outside the domain (variant unconstrained)",
+    "as of /repo a7785e6 the algo arm of Engine::process is process_audit.add_output(output).add_errors(unrecoverable): the AlgoOrders output stays in the audit next to the errors; "
+    "the spec now also constrains the `eng` outputs (first-stage output, then `algo` whenever generation ran and the strategy generated anything - sent, failed or refused)",
     "the `eng` op covers the audit assembly of Engine::process (engine/mod.rs:146-186) for Shutdown, SendCancelRequests / SendOpenRequests commands, trading-state updates, an account "
     "item, market / account disconnect notices; sends succeed on a healthy link and fail unrecoverably on a closed one (unbounded channels have no recoverable failure)",
 ]
@@ -50,6 +52,6 @@ LEVEL_TEXT = ("Proof + correspondence. lean/BarterModel/Props/C03N.lean proves f
               "(oom_from_iter, oom_extend_canonical_iff); derived Ord is consistent with Eq but compares the variant first. Audit records: add_output appends in order for every history, add_errors is "
               "extend, terminal <=> event terminal or an error present, all API-built records are canonical; register-machine runs refine list programs (run*_refines). Action outputs: "
               "unrecoverable_errors are the unrecoverable failures in request order, for cancels-and-opens a permutation of cancels ++ opens that is in order iff not (1 cancel error, >= 2 open errors); "
-              "in Engine::process add_errors only meets an empty error collection and the audit's errors are characterised for every event (engine_audit_errors).")
+              "in Engine::process add_errors only meets an empty error collection (engine_assemble), and for every link table, trading state, event and strategy output the audit's outputs are exactly the first stage's output followed by the AlgoOrders output whenever anything was generated - also when a send failed unrecoverably, nothing generated is dropped - and its errors are characterised (engine_audit_errors).")
 LEVEL_NOTE = ("Trusted: Lean kernel; axioms propext/Classical.choice/Quot.sound only; the hand-written model tied to the code by sampled + small-scope exhaustive correspondence "
               "(400 quick / 6000 random + ~4.6k enumerated thorough); harness and driver. Boundaries B1-B3 are reported, not repaired.")
